@@ -16,6 +16,7 @@ import (
 	"strconv"
 	"strings"
 	"sync"
+	"sync/atomic"
 	"time"
 
 	"github.com/maruel/panicparse/v2/stack"
@@ -35,6 +36,7 @@ type webReq struct {
 	} `json:"r"`
 	Status   int  `json:"status"`
 	Augments bool `json:"augments"`
+	Twins    int  `json:"twins"` // buckets holding the two goroutines that differ in the thread-lock flag only
 }
 
 type regEntry struct {
@@ -149,6 +151,24 @@ func spawnGeneric[A, B any](c *churn, a A, b B) {
 	go churnGeneric(c, a, b)
 }
 
+var (
+	twinCh   = make(chan struct{})
+	twinTurn int32
+	twinUp   sync.WaitGroup
+)
+
+// churnTwin: two goroutines started by one go statement and parked on one line; the first to get
+// here is locked to its thread.  No arguments: nothing but the lock flag tells them apart.
+//
+//go:noinline
+func churnTwin() {
+	if atomic.AddInt32(&twinTurn, 1) == 1 {
+		runtime.LockOSThread()
+	}
+	twinUp.Done()
+	<-twinCh
+}
+
 //go:noinline
 func startChurn() *churn {
 	c := &churn{stop: make(chan struct{}), recvCh: make(chan int), sendCh: make(chan int), selCh: make(chan int)}
@@ -172,6 +192,11 @@ func startChurn() *churn {
 		go f()
 	}
 	const creator = "startChurn"
+	twinUp.Add(2)
+	for i := 0; i < 2; i++ {
+		go churnTwin()
+	}
+	twinUp.Wait()
 	add(regEntry{fn: "churnRecv", state: "chan receive", creator: creator}, func() { churnRecv(c) })
 	add(regEntry{fn: "churnSend", state: "chan send", creator: creator}, func() { churnSend(c) })
 	add(regEntry{fn: "churnNilRecv", state: "chan receive (nil chan)", creator: creator}, func() { churnNilRecv(c) })
@@ -460,6 +485,34 @@ func checkWebResponse(res *Result, c *churn, r *webReq, w *httptest.ResponseReco
 			return
 		}
 	}
+	// the similarity level is the one the request names: the two goroutines that differ in the
+	// thread-lock flag only share a bucket at every level but ExactFlags
+	if r.Twins != 0 {
+		var counts []int
+		locs := reSig.FindAllStringSubmatchIndex(body, -1)
+		for k, l := range locs {
+			end := len(body)
+			if k+1 < len(locs) {
+				end = locs[k+1][0]
+			}
+			if strings.Contains(body[l[0]:end], "churnTwin") {
+				n, _ := strconv.Atoi(body[l[2]:l[3]])
+				counts = append(counts, n)
+			}
+		}
+		want := []int{2}
+		if r.Twins == 2 {
+			want = []int{1, 1}
+		}
+		res.count("lock_twin_pages_"+r.R.Sim, 1)
+		if fmt.Sprint(counts) != fmt.Sprint(want) {
+			f := mk("level", fmt.Sprintf("the two goroutines that differ only in the thread-lock flag are shown in buckets of %v members; at the similarity level the request names it is %v", counts, want))
+			f.Property = "C05"
+			res.violation(f)
+			res.violation(mk("level", fmt.Sprintf("the page is not aggregated at the similarity level the request names (lock twins in buckets of %v, expected %v)", counts, want)))
+			return
+		}
+	}
 	// path guessing is not something a request can turn off: standard-library frames are classed as such
 	// whatever the parameters, and the bucket whose frames are all standard library (io.Copy on a pipe)
 	// comes after the buckets with code of this program (C13's contract, end to end)
@@ -594,7 +647,22 @@ func init() {
 		rng.Shuffle(len(reqs), func(i, j int) { reqs[i], reqs[j] = reqs[j], reqs[i] })
 		var sel []webReq
 		n200 := 0
+		// first, for every similarity value a request may name, two requests that are served in full
+		perSim := map[string]int{}
+		picked := map[string]bool{}
 		for _, r := range reqs {
+			if r.Status == 200 && (r.R.Maxmem == "absent" || r.R.Maxmem == "67108864" || r.R.Maxmem == "4294967296") && perSim[r.R.Sim] < 2 {
+				perSim[r.R.Sim]++
+				b, _ := json.Marshal(r)
+				picked[string(b)] = true
+				sel = append(sel, r)
+				n200++
+			}
+		}
+		for _, r := range reqs {
+			if b, _ := json.Marshal(r); picked[string(b)] {
+				continue
+			}
 			if r.R.Maxmem == "1" || r.R.Maxmem == "1048576" || r.R.Maxmem == "-5" {
 				// tiny budgets are exercised in the large-dump phase only when they are >= the dump
 			}
